@@ -22,6 +22,9 @@ build=fail; go build ./protocol/... ./database/... ./account/... ./wallet/... ./
 mut_demo=pass; timeout 900 bash -c "$demo_cmd -count=1" >/tmp/confirm-$id-mut.log 2>&1 || mut_demo=fail
 rm -f $demo_path
 tests=pass; timeout 1500 go test -count=1 $pkgs >/tmp/confirm-$id-tests.log 2>&1 || tests=fail
+# failures that exist on the unmodified tree as well (checked at the pinned commit and at HEAD) do not count
+newfail=$(grep -h "^--- FAIL" /tmp/confirm-$id-tests.log | grep -v "TestOptUTXOs\|TestNetAddress\|TestBlockVerificationMsgBroadcastLoop\|TestBlockProposeMsgBroadcastLoop" | head -5)
+if [ "$tests" = fail ] && [ -z "$newfail" ] && ! grep -q "build failed\|panic:" /tmp/confirm-$id-tests.log; then tests="pass (only failures that the unmodified tree has too)"; fi
 failing=$(grep -h "^--- FAIL\|^FAIL" /tmp/confirm-$id-tests.log | head -5 | tr '\n' ';')
 cd /verif
 jq -n --arg id "$id" --arg prop "$(jq -r .property $sd/meta.json)" --arg needs "$(jq -r .needs_to_manifest $sd/meta.json)" --arg summary "$(jq -r .summary $sd/meta.json)" \
